@@ -196,7 +196,7 @@ func genSmallCmd(out string, seed uint64, thorough bool) error {
 	}
 	defer os.RemoveAll(root)
 
-	nscripts := 200
+	nscripts := 150
 	if thorough {
 		nscripts = 300
 	}
@@ -223,6 +223,23 @@ func genSmallCmd(out string, seed uint64, thorough bool) error {
 			meta = r.bytes(1 + r.intn(12))
 		}
 		ops, snaps := genSmallOps(r, nops)
+		bigWrite := s%20 == 7
+		if bigWrite {
+			// one Save whose records span more than one / two 4 KiB pages: after a crash in the
+			// middle of it, surviving sectors can lie far behind the first lost ones
+			segsize = 16384
+			nent := 4 + 4*(s/10%2) // ~5 KiB or ~10 KiB
+			big := genOp{kind: "save", st: raftpb.HardState{Term: 1, Vote: 1, Commit: 0}}
+			for i := 0; i < nent; i++ {
+				big.ents = append(big.ents, raftpb.Entry{Term: 1, Index: uint64(2 + i), Data: r.bytes(1100 + r.intn(200))})
+			}
+			ops = []genOp{
+				{kind: "save", st: raftpb.HardState{Term: 1, Vote: 1, Commit: 0}, ents: []raftpb.Entry{{Term: 1, Index: 1, Data: r.bytes(1 + r.intn(40))}}},
+				big,
+			}
+			snaps = nil
+			stats["scripts_big_unsynced_write"]++
+		}
 		wid := fmt.Sprintf("s%d", s)
 		sr, err := runScript(root, wid, segsize, meta, ops, &didc)
 		if err != nil {
@@ -277,9 +294,53 @@ func genSmallCmd(out string, seed uint64, thorough bool) error {
 			if thorough {
 				maxAll, nrand = 6, 200
 			}
-			for _, ss := range sectorSubsets(r, first, last, maxAll, nrand) {
+			subsets := sectorSubsets(r, first, last, maxAll, nrand)
+			nsec := last - first + 1
+			var prefixLost [][]int
+			if nsec > maxAll {
+				// the first j sectors of the unsynced region lost, everything behind them written
+				for j := 1; j < nsec; j++ {
+					if nsec > 12 && !thorough && j != 1 && j != 7 && j != 8 && j != 9 && j != 16 && j != 17 && j != nsec-1 {
+						continue
+					}
+					var ss []int
+					for x := first; x < first+j; x++ {
+						ss = append(ss, x)
+					}
+					prefixLost = append(prefixLost, ss)
+				}
+				subsets = append(subsets, prefixLost...)
+			}
+			for _, ss := range subsets {
 				fmt.Fprintf(w, "Z %s %s 0 0 %d %s\n", next(), b.id, endA, sectorList(ss))
 				stats["crash"]++
+			}
+			// two lives: reopen the crash image for append, append saves past every stale
+			// sector, close, reopen
+			var life [][]int
+			for _, ss := range prefixLost {
+				// keep the geometries in which a whole 4 KiB page behind the recovered prefix is lost
+				if thorough || len(ss) == 8 || len(ss) == 9 || len(ss) == 17 || len(ss) == nsec-1 {
+					life = append(life, ss)
+				}
+			}
+			pick := 0
+			if thorough {
+				pick = 8
+			} else if r.chance(1, 2) {
+				pick = 1
+			}
+			for t := 0; t < pick && len(subsets) > 0; t++ {
+				life = append(life, subsets[r.intn(len(subsets))])
+			}
+			psize := 300
+			if endB-endA > 3000 {
+				psize = 900
+			}
+			nsaves := (endB-endA)/psize + 2
+			for _, ss := range life {
+				fmt.Fprintf(w, "L %s %s 0 0 %d %s %d %d\n", next(), b.id, endA, sectorList(ss), nsaves, psize)
+				stats["two_life"]++
 			}
 			stats["crashpoints"]++
 			if last-first+1 > maxAll {
@@ -289,7 +350,7 @@ func genSmallCmd(out string, seed uint64, thorough bool) error {
 			// between Truncate and sync inside cut; a tail grown past its preallocation)
 			li := len(b.files) - 1
 			ts := map[int]bool{endA: true, endB: true}
-			for _, dlt := range []int{1, 8, 9} {
+			for _, dlt := range []int{1, 8} {
 				ts[endA+dlt] = true
 				ts[endB-dlt] = true
 			}
@@ -341,7 +402,7 @@ func genSmallCmd(out string, seed uint64, thorough bool) error {
 			if fi == len(final.files)-1 {
 				sweep[len(offs)-1] = true
 			}
-			if len(offs) > 0 && (thorough || r.chance(1, 2)) {
+			if len(offs) > 0 && (thorough || r.chance(1, 4)) {
 				sweep[r.intn(len(offs))] = true
 			}
 			for i, o := range offs {
